@@ -12,6 +12,9 @@ constructs, a `CR.SrcW.Builder` term is written (vocabulary: lean/CRModel/PyExtC
 
 What the translator understands (the denotations are the trusted part, cf. PyExtC03.lean):
   x = etree.Element(t)                       a new element
+  t = <expr> (no element), t bound ONCE in the function and <expr> naming only once-bound names: a value temporary; t is
+                                             replaced by <expr> wherever it is read (formatter of `.text = t` / `.set(k, t)`,
+                                             guards, source texts), so naming a sub-expression changes nothing
   x = F(..) with F a builder returning an element: x is that element (its children so far: `splice F`)
   a.append(x) / a.append(F(..)) / a.append(etree.Element(t))       one child; F returning a list or forwarding: splice
   a.extend(F(..)) / a.extend([x, y])         the children F returns
@@ -125,6 +128,16 @@ class Rename(ast.NodeTransformer):
         return ast.copy_location(ast.Name(id=self.m.get(n.id, n.id), ctx=n.ctx), n)
 
 
+class Inline(ast.NodeTransformer):
+    def __init__(self, m):
+        self.m = m
+
+    def visit_Name(self, n):
+        if isinstance(n.ctx, ast.Load) and n.id in self.m:
+            return copy.deepcopy(self.m[n.id])
+        return n
+
+
 def contains(node, typ):
     return any(isinstance(x, typ) for x in ast.walk(node))
 
@@ -195,6 +208,19 @@ class Fn:
         elif self.params:
             self.canon[self.params[0]] = "_"
         self.vars = {}            # local name -> Rec
+        # local name -> the expression it is bound to (value temporaries, `t = str(x.value)`): only names with exactly ONE binding
+        # in the whole function (no parameter, loop target, augmented assignment ...) whose expression mentions no name that is
+        # bound more than once either -- such a name denotes its expression wherever it is read
+        self.exprs = {}
+        self.stores = {}
+        for n in ast.walk(self.fd):
+            if isinstance(n, ast.Name) and isinstance(n.ctx, (ast.Store, ast.Del)):
+                self.stores[n.id] = self.stores.get(n.id, 0) + 1
+            elif isinstance(n, ast.arg):
+                self.stores[n.arg] = self.stores.get(n.arg, 0) + 1
+            elif isinstance(n, (ast.Global, ast.Nonlocal)):
+                for x in n.names:
+                    self.stores[x] = self.stores.get(x, 0) + 2
         self.prec = {}            # parameter name / ROOT_ATTR -> Rec
         self.ev = {}              # id(stmt) -> [(Rec | "ANY", event)]
         self.conds, self.colls, self.skip_if = {}, {}, set()
@@ -204,7 +230,13 @@ class Fn:
 
     # ---------------------------------------------------------------- expressions
     def src(self, e) -> str:
-        e = Rename(self.canon).visit(copy.deepcopy(e))
+        e = copy.deepcopy(e)
+        for _ in range(8):          # value temporaries are written out (their text must not depend on how a value is named)
+            if not any(isinstance(n, ast.Name) and isinstance(n.ctx, ast.Load) and n.id in self.exprs and n.id not in self.vars
+                       for n in ast.walk(e)):
+                break
+            e = Inline({k: v for k, v in self.exprs.items() if k not in self.vars}).visit(e)
+        e = Rename(self.canon).visit(e)
         return ast.unparse(ast.fix_missing_locations(e))
 
     def atom(self, text) -> tuple:
@@ -213,6 +245,7 @@ class Fn:
         return ("atom", self.atoms.index(text))
 
     def cond(self, t, top=True):
+        t = self.resolve(t)
         if isinstance(t, ast.BoolOp):
             op = "and" if isinstance(t.op, ast.And) else "or"
             cs = [self.cond(v, False) for v in t.values]
@@ -248,7 +281,27 @@ class Fn:
             return e.args[0]
         return e
 
+    def bind_expr(self, name, v):
+        """`name = v` (v no element): remember v when the name can be replaced by it wherever it is read"""
+        self.exprs.pop(name, None)
+        if self.stores.get(name, 0) != 1:
+            return
+        for n in ast.walk(v):
+            if isinstance(n, (ast.NamedExpr, ast.Lambda, ast.ListComp, ast.SetComp, ast.DictComp, ast.GeneratorExp, ast.Await,
+                              ast.Yield, ast.YieldFrom)):
+                return
+            if isinstance(n, ast.Name) and (n.id == name or self.stores.get(n.id, 0) > 1):
+                return
+        self.exprs[name] = v
+
+    def resolve(self, e, fuel=8):
+        """a value temporary stands for the expression it was bound to (`t = str(x.value); node.text = t`)"""
+        while fuel > 0 and isinstance(e, ast.Name) and e.id in self.exprs and e.id not in self.vars:
+            e, fuel = self.exprs[e.id], fuel - 1
+        return e
+
     def fmt(self, e, depth=0):
+        e = self.resolve(e)
         if isinstance(e, ast.Constant) and isinstance(e.value, str):
             return ("const", e.value)
         if isinstance(e, ast.IfExp):
@@ -484,6 +537,7 @@ class Fn:
                     else:
                         self.check_no_element_arg(v)
                         self.vars.pop(t.id, None)
+                        self.bind_expr(t.id, v)
                 elif isinstance(t, ast.Attribute) and t.attr == "text" and self.target_rec(t.value) is not None:
                     self.target_rec(t.value).text = self.fmt(v)
                 else:
